@@ -986,3 +986,4 @@ def pdos(chk, repo):
 # added rules (appended to the explanation the evidence file carries)
 EXPLANATION += (" " + "Added during the build (DESIGN.md 4.31, second table): read_eeprom / _eeprom_read_one and EtherCat.eeprom_read by abstract execution against a model of the SII interface (4/8-byte width, busy periods, stale data registers, histories: re-read, retry after a lost datagram); the whole parse_pdos from EEPROM and CoE sources; apply_eeprom's process-data sizes.")
 EXPLANATION += (' Added after refactoring wave 6: (R17.2) the provenance of the returned data follows assignments that put it together from values read with a final status, without a call.')
+EXPLANATION += (' Added after wave 10: (R17.4) has_mailbox() needs both mailbox sync managers (6 combinations).')
